@@ -16,7 +16,8 @@ META = {
                    'INV_J2PLUS.backward (which re-use the filters as their own time-reverse / swap the trees) and every leaf gradient, a linear form in the cotangent '
                    'atoms, is compared with J^T g read off the same symbolic forward run. The "filters are symmetric / mutually time-reversed" assumption is therefore '
                    'tested, not assumed.',
-    'bounds': {'quick': {'forward': '6 filter pairs x sizes (4,4),(6,8),(5,7),(8,8),(10,12) x J<=2 (+J=3 on 8x8); 8 layouts; all skip/include masks J=2',
+    'bounds': {'added_families': ['cotangent boxes of radius 1, 2^-30, 2^-60 when the backward selects by magnitude'],
+               'quick': {'forward': '6 filter pairs x sizes (4,4),(6,8),(5,7),(8,8),(10,12) x J<=2 (+J=3 on 8x8); 8 layouts; all skip/include masks J=2',
                          'inverse': 'all non-empty grad subsets of (yl, yh_1..J) for J<=2 on 3 filter pairs; None levels on 2 configs'},
                'thorough': {'forward': '20 filter pairs, sizes up to 12x12, J<=3, all 30 layouts on one pair, all masks J<=3', 'inverse': 'all subsets J<=3'}},
     'outside': 'sizes beyond the lists; the autograd engine is modelled (validated against real autograd per configuration)',
